@@ -15,7 +15,7 @@ import (
 
 func init() {
 	suites["lock"] = suite{
-		rule: "C34: (1) script-level: acqms/acqat/fcqms/fcqat/extend/delkey on the fake's registers with own, foreign and missing values vs the Lean register scripts; (2) end-to-end: real rueidislock Lockers (KeyMajority 1..3, NoLoopTracking, FallbackSETPX on/off, one fake connection per Locker with OPTOUT tracking and invalidation pushes) driven one event at a time to quiescence: TryWithContext, WithContext waiters (goroutines), ForceWithContext, release (cancel func), third-party deletion and expiry of single keys, one fixed gated schedule with two waiters of ONE Locker under NoLoopTracking (known finding lock:lost-wakeup:noloop-sibling-failed-attempt) and its control without NOLOOP, lock names containing ':' (one, several, leading, trailing, empty segments), the prefix itself, other separators and non-ASCII bytes, raw invalidation pushes (`inval`: well-formed keys, foreign names, non-numeric / out-of-range / negative indexes, the bare prefix - panics are answers), injected failures of one acquisition (bare-majority holders) and of one extend, third-party writes; the anonymous state (live contexts, waiters, every live holder owns a majority, all keys free when idle) is compared with the Lean model run to quiescence on a canonical schedule; the harness itself flags two live contexts in episodes without force/expiry/deletion/faults and a key deleted by its holder's delkey while that holder's context is still live; after a waiter took the lock over, episodes destroy no further keys (how many spare keys the new holder got is a scheduler race); non-trivial = distinct op within its episode prefix",
+		rule: "C34: (1) script-level: acqms/acqat/fcqms/fcqat/extend/delkey on the fake's registers with own, foreign and missing values vs the Lean register scripts; (2) end-to-end: real rueidislock Lockers (KeyMajority 1..3, NoLoopTracking, FallbackSETPX on/off, one fake connection per Locker with OPTOUT tracking and invalidation pushes) driven one event at a time to quiescence: TryWithContext, WithContext waiters (goroutines), ForceWithContext, release (cancel func), third-party deletion and expiry of single keys, one fixed gated schedule with two waiters of ONE Locker under NoLoopTracking (known finding lock:lost-wakeup:noloop-sibling-failed-attempt) and its control without NOLOOP, lock names containing ':' (one, several, leading, trailing, empty segments), the prefix itself, other separators and non-ASCII bytes, raw invalidation pushes (`inval`: well-formed keys, foreign names, non-numeric / out-of-range / negative indexes, the bare prefix - panics are answers), keys deleted by a third party between the server's execution of the acquire script and the client's receipt of its reply (`try-raced`, ordered by a reply hook; no timer fires, so the loss must be noticed through the invalidation), injected failures of one acquisition (bare-majority holders) and of one extend, third-party writes; the anonymous state (live contexts, waiters, every live holder owns a majority, all keys free when idle) is compared with the Lean model run to quiescence on a canonical schedule; the harness itself flags two live contexts in episodes without force/expiry/deletion/faults and a key deleted by its holder's delkey while that holder's context is still live; after a waiter took the lock over, episodes destroy no further keys (how many spare keys the new holder got is a scheduler race); non-trivial = distinct op within its episode prefix",
 		run:  runLock,
 		replay: func(c *Ctx, lines []string) {
 			ep := &lkEp{}
@@ -306,6 +306,66 @@ func (e *lkEp) op(c *Ctx, line string) {
 		}
 		c.Hit(w[0] + ":" + errClassLock(err))
 		emit()
+	case "try-raced": // try-raced L j…: TryWithContext on Locker L; for every listed key, right after its acquire script
+		// ran on the server and BEFORE the reply gets back to the client, a third party deletes the key (the
+		// invalidation push precedes the reply on the connection)
+		e.dirty = true
+		li := int(w[1][0] - '0')
+		l := e.locker(li, false)
+		fc := e.fcs[li]
+		want := map[string]bool{}
+		for _, x := range w[2:] {
+			j, _ := strconv.Atoi(x)
+			want[e.key(j)] = true
+		}
+		reached, resume := make(chan string), make(chan struct{})
+		e.srv.afterReply = func(cl *fakeClient, cmd []string, r reply) {
+			if cl == fc && len(cmd) > 3 && strings.HasPrefix(strings.ToUpper(cmd[0]), "EVAL") && want[cmd[3]] && r.typ == '+' &&
+				(acqShas[cmd[1]] || strings.HasPrefix(cmd[1], "local r = redis.call(\"SET\"")) {
+				delete(want, cmd[3])
+				reached <- cmd[3]
+				<-resume
+			}
+		}
+		var ctx context.Context
+		var cancel context.CancelFunc
+		var err error
+		ret := make(chan struct{})
+		go func() {
+			ctx, cancel, err = l.TryWithContext(bg, e.name)
+			close(ret)
+		}()
+		hung := false
+	loop:
+		for {
+			select {
+			case k := <-reached:
+				e.srv.mu.Lock()
+				if e.srv.keys[k] != nil {
+					delete(e.srv.keys, k)
+					e.srv.touched(k, nil)
+				}
+				e.srv.mu.Unlock()
+				e.srv.flush()
+				resume <- struct{}{}
+			case <-ret:
+				break loop
+			case <-time.After(15 * time.Second):
+				hung = true
+				break loop
+			}
+		}
+		e.srv.afterReply = nil
+		if hung {
+			e.dead = true
+			c.Emit(line, "hang", true)
+			return
+		}
+		if err == nil {
+			e.got(ctx, cancel, li+1)
+		}
+		c.Hit("try-raced:" + errClassLock(err))
+		emit()
 	case "with":
 		conn := int(w[1][0]-'0') + 1
 		l := e.locker(int(w[1][0]-'0'), len(w) > 2 && w[2] == "px")
@@ -555,6 +615,12 @@ func runLock(c *Ctx) {
 		{"reset 2", "extset 2", "try 0 px", "with 1 px", "failext 1", "release"},
 		{"reset 3", "failacq 3", "try 0", "failacq 4", "try 1", "extset 4", "failext 2", "with 2", "failext 0", "release"},
 		{"reset 2", "failacq 1", "try 0", "try 1", "failext 0", "try 1"},
+		// a key is deleted between the server's execution of the acquire script and the client's receipt of the reply
+		{"reset 1", "try-raced 0 0", "try 1"},
+		{"reset 2", "try-raced 0 0 1", "try 1", "release"},
+		{"reset 2", "try-raced 0 2", "with 1", "release"},
+		{"reset 3", "with 1", "try-raced 0 1 2 4", "release", "release"},
+		{"reset 2 name=" + hx("job:42"), "try-raced 1 0 1 2", "try 0", "release"},
 		// two waiters of ONE Locker, the holder's and one waiter's delkeys ordered by gates: the lost wake-up of
 		// NoLoopTracking (known finding) and the same schedule without NOLOOP as the passing control
 		{"reset 2 noloop=1", "sib.setup", "sib.hdel 0", "sib.hdel 1", "sib.hdel 2", "sib.adel"},
